@@ -323,6 +323,7 @@ func TestProp(t *testing.T) {
 			rep.Floor(f, 5)
 		}
 		rep.Floor("signin_near_deadline_refused_no_path_confirms", 10)
+		rep.Floor("signin_cookie_with_zero_lifetime_deadline", 20)
 		rep.Floor("signin_near_deadline_code_issued_both_paths_confirm", 2)
 		for _, prov := range []string{"okta", "google", "cognito"} {
 			rep.Floor("signin_"+prov+"_code_via_validate", 5)
